@@ -67,6 +67,22 @@ inductive CoAct (ε : Type)
   | ret                  -- `co_return func(params)`
   deriving DecidableEq, Repr
 
+/-- what the parameter listings insert into a report: `print_mismatch` (one "Expected _N …" per rejecting parameter) and
+    `stream_params` (one "param _N == value" line per parameter). -/
+inductive PTok
+  | expected (idx : Nat)        -- "  Expected " … `_<idx+1>` + print_expectation of the matcher at that position
+  | param (idx : Nat)           -- "  param " … `_<idx+1>` + comparison operator + the value at that position
+  deriving DecidableEq, Repr
+
+/-- what a `trace_agent` collects for one call. -/
+inductive TTok
+  | name            -- the call's text, then " with.\n"
+  | params          -- `stream_params(os, params)`: every actual argument
+  | result          -- " -> " value "\n"
+  | stdException    -- "threw exception: what() = …"
+  | unknownException
+  deriving DecidableEq, Repr
+
 /-- what `hexdump` inserts into the stream, manipulators included. -/
 inductive HTok
   | sentry                 -- `stream_sentry s(os)`
